@@ -95,6 +95,12 @@ Theorem C14_model_contains_leaves_and_root : forall icf o root leaves o', qgood 
   (forall l, In l leaves -> In l (ar_keys (o_arena o'))) /\ (leaves <> [] -> In (t_id root) (ar_keys (o_arena o'))).
 Proof. exact sub_ontology_contains_leaves_and_root. Qed.
 
+(* the order and the multiplicity of the leaves do not matter: two leaf collections with the same
+   members give the same sub-ontology (duplicates, leaves listed twice, any order) *)
+Theorem C14_model_leaf_collection_is_a_set : forall icf o root leaves leaves' o', (forall l, In l leaves <-> In l leaves') ->
+  sub_ontology icf o root leaves = Ok o' -> sub_ontology icf o root leaves' = Ok o'.
+Proof. exact sub_ontology_same_members. Qed.
+
 Print Assumptions C14_retained_on_shortest_chain.
 Print Assumptions C14_result_closure_exact.
 Print Assumptions C14_model_retained_set.
@@ -104,3 +110,4 @@ Print Assumptions C14_model_structure.
 Print Assumptions C14_model_annotations.
 Print Assumptions C14_model_leaf_distance_kept.
 Print Assumptions C14_model_contains_leaves_and_root.
+Print Assumptions C14_model_leaf_collection_is_a_set.
